@@ -41,14 +41,19 @@ Special ==
                      "p-proprej-match", "s-propacc-match-sub", "s-proprej-match" },
     subopen    |-> { "p-update-withdraw-early", "p-update-fund-again", "p-subupdate-valid", "p-subupdate-badsig" },
     subsettled |-> { "p-update-refund-sub", "p-update-withdraw-again", "p-subupdate-settled" },
-    hub        |-> { "p-vsettle-lone", "x-vsettle", "x-vsettle-late", "p-vfund2-lone", "x-vfund2", "x-vfund2-late" } ]
+    hub        |-> { "p-vsettle-lone", "x-vsettle", "x-vsettle-late", "p-vfund2-lone", "x-vfund2", "x-vfund2-late",
+                     \* a second virtual channel in which X owns nothing (2 / 0): honest proposals, and proposals whose index
+                     \* map is one entry short (the unmapped participant is the one that owns nothing)
+                     "p-vfund2z-lone", "x-vfund2z", "p-vfund2z-short", "x-vfund2z-short" } ]
 SpecialOf(pt) == IF pt \in DOMAIN Special THEN Special[pt] ELSE {}
 (* classes that need the channel with P *)
 NeedsChannel(c) == c \in PeerClasses \ {"p-propacc-unknown", "p-ledgerprop-again"}
 OK(pt, c) == pt # "nochannel" \/ ~NeedsChannel(c)
 At(pt) == { c \in Classes : OK(pt, c) } \cup SpecialOf(pt)
 
-Emit(pt, s) == PrintT(ToJson([point |-> pt, seq |-> s]))
+(* dep: both messages are specific to the point - they meet in the same piece of state of H (the hub's matching of
+   proposals, H's pending proposal, the sub-channel): these pairs are always run, the others are sampled *)
+Emit(pt, s) == PrintT(ToJson([point |-> pt, seq |-> s, dep |-> (Len(s) = 2 /\ s[1] \in SpecialOf(pt) /\ s[2] \in SpecialOf(pt))]))
 Singles == \A pt \in Points : \A c \in At(pt) : Emit(pt, <<c>>)
 (* pairs: everything at the four basic points; at the three deeper points every pair with a point-specific class *)
 Pairs == \A pt \in Points : \A c \in At(pt) : \A d \in At(pt) :
